@@ -306,7 +306,9 @@ SinglePath(d) ==
 ShareOf(d) == IF "share" \in DOMAIN d THEN d.share ELSE ""
 RECURSIVE InstalledIds(_)
 InstalledIds(d) ==      \* sequence of share ids at installed positions (with multiplicity)
-  LET own == IF ShareOf(d) = "" THEN <<>> ELSE <<ShareOf(d)>> IN
+  (* xid: one of this container's own children (a bin, a flow, the numerator ...) was taken out of it and installed  *)
+  (* at another position of the tree as well, where it appears as a node with share id xid                          *)
+  LET own == (IF ShareOf(d) = "" THEN <<>> ELSE <<ShareOf(d)>>) \o (IF "xid" \in DOMAIN d THEN <<d.xid>> ELSE <<>>) IN
   CASE d.k = "Select" -> own \o InstalledIds(d.cut)
     [] d.k \in {"Label", "UntypedLabel"} ->
          LET RECURSIVE Cat(_)
